@@ -1,5 +1,5 @@
 """Scenario generation per property (all random choices from one PRNG seeded by VERIF_SEED)."""
-import random
+import random, re
 
 PURE = "panel=pure delay=none sched=- raise=- busylvl=0 fault=- scribble=0"
 
@@ -250,8 +250,16 @@ def gen_histories(tier, seed, tag, probe=True, scribble_twins=False, maxlen=None
         hs = [[]] + [[u] for u in A]
         pairs = [[u, v] for u in A for v in A]
         if tier == "quick":
-            k = 40 if big else 120
+            # every ordered pair on the small and medium panels; a sample on the big ones
+            k = 120 if big else len(pairs)
             hs += pairs if len(pairs) <= k else rnd.sample(pairs, k)
+            # length 3 with a mode-setting first unit (quick LUT / quick refresh): the modes that
+            # steer the update paths
+            modes = [u for u in A if u[0] in ("lut,quick", "refresh,quick")]
+            for m in modes:
+                trip = [[m, u, v] for u in A for v in A]
+                kk = 60 if big else 200
+                hs += trip if len(trip) <= kk else rnd.sample(trip, kk)
         else:
             k2 = 150 if big else len(pairs)
             hs += pairs if len(pairs) <= k2 else rnd.sample(pairs, k2)
@@ -510,18 +518,24 @@ def gen_c05(tier, seed):
     for p in each_panel():
         big = p.n > 20000
         A = alphabet(p, rnd, small=True)
-        pairs = [(a, b) for a in A for b in A]
-        lim = (30 if big else 80) if tier == "quick" else (120 if big else len(pairs))
+        pairs = [([], a, b) for a in A for b in A]
+        lim = (60 if big else len(pairs)) if tier == "quick" else len(pairs)
         if len(pairs) > lim:
             pairs = rnd.sample(pairs, lim)
+        # the same pairs under every mode-setting prefix (quick LUT / quick refresh)
+        modes = [u for u in A if u[0] in ("lut,quick", "refresh,quick")]
+        for m in modes:
+            mp = [(m, a, b) for a in A for b in A]
+            ml = (40 if big else 150) if tier == "quick" else len(mp)
+            pairs += mp if len(mp) <= ml else rnd.sample(mp, ml)
         durs = [0, 1, 3] if tier == "quick" else list(range(8))
         k = 0
-        for (a, b) in pairs:
+        for (pre, a, b) in pairs:
             reps = 2 if tier == "quick" else 4
             for _ in range(reps):
                 sched = ",".join(str(rnd.choice(durs)) for _ in range(14))
                 delay = rnd.choice(["none", "0", "1", "250"])
-                lines.append(PN.line(f"c05-{p.name}-{k}", p, ["new"] + a + b, sched=sched, delay=delay))
+                lines.append(PN.line(f"c05-{p.name}-{k}", p, ["new"] + pre + a + b, sched=sched, delay=delay))
                 k += 1
             stats["pairs"] += 1
         # explicit wait after each busy-raising op
@@ -629,7 +643,9 @@ def post_c04(outputs, all_lines):
         base = sid.rsplit("-", 1)[0]
         twin = dig.get(base + "-twin@-")
         if twin is not None and twin != d:
-            panel = sid.split("-")[1]
+            line = all_lines.get(("v3", sid), "")
+            mp = re.search(r"panel=(\S+)", line)
+            panel = mp.group(1) if mp else sid.split("-")[1]
             opname = sid.rsplit("-", 1)[1].split("@")[0]
             fails.append(("v3", sid, f"site={panel}/{opname} reason=state-after-recovery-differs got={d.replace(' ', ';')} want={twin.replace(' ', ';')}"))
     return fails, len(dig)
@@ -646,7 +662,9 @@ def post_c12(outputs, all_lines):
         if sid.endswith("@1"):
             twin = dig.get(sid[:-2] + "@0")
             if twin is not None and twin != d:
-                panel = sid.split("-")[1]
+                line = all_lines.get(("v3", sid), "")
+                mp = re.search(r"panel=(\S+)", line)
+                panel = mp.group(1) if mp else sid.split("-")[1]
                 fails.append(("v3", sid, f"site={panel}/history reason=wire-depends-on-buffer-after-return got={d} want={twin}"))
     return fails, len(dig) // 2
 
